@@ -2,7 +2,7 @@ from propcfg.common import *
 from propcfg.tmplcommon import *
 
 CFG = dict(TMPL_C06)
-CFG["proof_modules"] = ["SafeHtml.Proofs.Frozen", "SafeHtml.Proofs.Independence", "SafeHtml.Proofs.IndependenceCalls"]
+CFG["proof_modules"] = ["SafeHtml.Proofs.Frozen", "SafeHtml.Proofs.Independence", "SafeHtml.Proofs.IndependenceCalls", "SafeHtml.Proofs.Layer3Repeat3"]
 CFG["level_text"] = CFG["level_text"] + " Proofs/Independence.lean proves the first half for templates without {{template}} calls: C06_callfree_reachable — in any two reachable worlds in which the same call-free tree is installed under a name not yet analysed, the analysis has the same outcome class and, on success, execution gives the same result for every data (the analysis of a call-free template never reads the memo; the committed tree is a function of the tree alone)."
 CFG["level_note"] = "Not proved: first-analysis independence for templates WITH template calls (needs a memo-correctness invariant; false without excluding the two findings memo-ignores-attr-prefix and mangled-name-collision). C06_statement is kept in Props/C06.lean."
 
@@ -12,3 +12,9 @@ CFG["level_text"] = CFG["level_text"] + (" Proofs/IndependenceCalls.lean extends
     "correctness in the text context for every reachable world. Kernel-checked counterexamples (namespace Cex) show that both exclusions are necessary: they ARE the "
     "two listed findings memo-ignores-attr-prefix and mangled-name-collision. Reachability here requires CSPCompatible() to be called before the first execution "
     "(CspEarly): a later call leaves stale memo entries — a third source of history dependence, outside the histories C06 quantifies over.")
+
+CFG["level_text"] = CFG["level_text"] + (" Proofs/Layer3Repeat3.lean states history independence at Api.step level for four template shapes (single straight-line template, "
+    "one template with if/with/range, main + helper called from text, main + helper called inside an element / quoted attribute value — derived copy): "
+    "C06_result_history_independent_{single,branch,main_plus_helper,main_plus_derived_helper} — for ARBITRARY lists pre1, pre2 of earlier Execute calls "
+    "(any data, successful or failed) and every d, Execute(d) after pre1 returns exactly what Execute(d) after pre2 returns (bytes or error); the world "
+    "after the first Execute is a data-independent fixed point of apiExecute.")
